@@ -37,7 +37,7 @@ def main(tier, seed, budget):
     hashseeds = [0] if quick else [0, 1, 2, 3]
     deadline = time.time() + (budget or (170 if quick else 1500))
     stats = dict(worlds=0, functions=0, merged=0, mapped=0, nan_chains=0, points=0, inconclusive=0, family_ok=0, family_inconclusive=0, rechecked_equal=0, rechecked_noise=0, nontrivial=set(), events=0,
-                 not_run=0, wall_timeouts=[], real_cap_expiries=0)
+                 not_run=0, wall_timeouts=[], real_cap_expiries=0, not_generated=[])
     samples = []
     pending_min = []
     for hs in hashseeds:
@@ -70,6 +70,14 @@ def main(tier, seed, budget):
                 if st.get('merged', 0) > 0:
                     stats['nontrivial'].add((a['runname'], a['compl'], hs))
                 ss = sigs_of(a, r)
+                if r.get('violation') and a['basis'] is not None:
+                    # the sequential, fault-free generation itself failed for a seeded sub-basis: no library exists for C03
+                    # to judge, and the failure has nothing a scheduler or fault injector controls (see DESIGN 11: a crash in
+                    # the tree-rewriting code, C11 territory).  Recorded in the evidence, not reported.  For the six shipped
+                    # bases - ESR's advertised domain - a failure to produce the library IS reported.
+                    stats['not_generated'].append([a['runname'], a['compl'], a['basis'], r['violation']['sig'][:90]])
+                    print('NOTE C03: configuration %s/%d %s was not generated (%s)' % (a['runname'], a['compl'], a['basis'][1:], r['violation']['sig'][:90]), flush=True)
+                    ss = set()
                 if len(samples) < 4 and (a['basis'] is not None or len(samples) < 2) and st.get('merged', 0) > 0:
                     samples.append(dict(config=[a['runname'], a['compl'], a['basis']], hashseed=hs, functions=st.get('functions'),
                                         merged=st.get('merged'), with_map=st.get('mapped'), unrecoverable=st.get('nan_chains'),
@@ -96,7 +104,7 @@ def main(tier, seed, budget):
              'under the cap. Non-trivial = at least one function was merged into a different unique function; distinct by (basis, complexity, hash seed).'
              % 5,
         samples=samples, interleavings=1, configurations=len(cfgs), configurations_skipped_over_cap=len(skipped),
-        configurations_not_run_budget=stats['not_run'], configurations_wall_timeout=stats['wall_timeouts'],
+        configurations_not_run_budget=stats['not_run'], configurations_wall_timeout=stats['wall_timeouts'], sub_basis_configurations_not_generated=stats['not_generated'],
         real_time_cap_expiries=stats['real_cap_expiries'], functions_checked=stats['functions'], functions_merged=stats['merged'],
         functions_with_recorded_map=stats['mapped'], functions_marked_unrecoverable=stats['nan_chains'],
         oracle_points_evaluated=stats['points'], same_family_pairs_confirmed=stats['family_ok'], same_family_pairs_inconclusive=stats['family_inconclusive'],
